@@ -129,9 +129,13 @@ pp_uthread_cleanup (ppointer data)
 static ppointer
 pp_uthread_proxy (ppointer data)
 {
-	PUThreadBase *base_thread = data;
+	PUThreadBase	*base_thread = data;
+	pboolean	is_stored;
 
 	p_uthread_set_local (pp_uthread_specific_data, data);
+
+	/* Without the TLS slot the thread exit notification is never called */
+	is_stored = (p_uthread_get_local (pp_uthread_specific_data) == data);
 
 	p_spinlock_lock (pp_uthread_new_spin);
 	p_spinlock_unlock (pp_uthread_new_spin);
@@ -140,6 +144,9 @@ pp_uthread_proxy (ppointer data)
 		p_uthread_set_name_internal ((PUThread *) base_thread);
 
 	base_thread->func (base_thread->data);
+
+	if (P_UNLIKELY (is_stored == FALSE))
+		p_uthread_unref ((PUThread *) base_thread);
 
 	return NULL;
 }
@@ -275,6 +282,12 @@ p_uthread_current (void)
 		base_thread->ref_count = 1;
 
 		p_uthread_set_local (pp_uthread_specific_data, base_thread);
+
+		if (P_UNLIKELY (p_uthread_get_local (pp_uthread_specific_data) != base_thread)) {
+			P_ERROR ("PUThread::p_uthread_current: failed to store thread data");
+			p_free (base_thread);
+			return NULL;
+		}
 	}
 
 	return (PUThread *) base_thread;
